@@ -2023,7 +2023,7 @@ impl Server {
 
       let prev_page = page.checked_sub(1);
 
-      let next_page = more_children.then_some(page + 1);
+      let next_page = more_children.then(|| page + 1);
 
       Ok(if accept_json {
         Json(api::Children {
@@ -2176,7 +2176,7 @@ impl Server {
 
       let prev_page = page.checked_sub(1);
 
-      let next_page = more.then_some(page + 1);
+      let next_page = more.then(|| page + 1);
 
       Ok(
         ParentsHtml {
@@ -7669,6 +7669,28 @@ next
     assert_eq!(children_json.ids[10], hundred_eleventh_child_inscription_id);
     assert!(!children_json.more);
     assert_eq!(children_json.page, 1);
+
+    for page in [usize::MAX, usize::MAX / 100 + 1] {
+      let children_json =
+        server.get_json::<api::Children>(format!("/r/children/{parent_inscription_id}/{page}"));
+
+      assert_eq!(children_json.ids.len(), 0);
+      assert!(!children_json.more);
+      assert_eq!(children_json.page, page);
+
+      let children_json =
+        server.get_json::<api::Children>(format!("/children/{parent_inscription_id}/{page}"));
+
+      assert_eq!(children_json.ids.len(), 0);
+      assert!(!children_json.more);
+
+      let parents_json = server.get_json::<api::ParentInscriptions>(format!(
+        "/r/parents/{first_child_inscription_id}/inscriptions/{page}"
+      ));
+
+      assert_eq!(parents_json.parents.len(), 0);
+      assert!(!parents_json.more);
+    }
   }
 
   #[test]
